@@ -198,6 +198,9 @@ class Run:
             for h in mf.metadata_holders():
                 if h.metadata is m:
                     out.append((h, "metadata", False))
+            for s_ in mf.all_sections():
+                if s_.link is m:
+                    out.append((s_, "link", False))
         return out
 
     def R(self, m, via=0):
